@@ -2,6 +2,7 @@ import Sm9.Proofs.Consts
 import Sm9.Proofs.MillerFrobenius
 import Sm9.Proofs.MillerNaf
 import Sm9.Proofs.ChainIndepSm9
+import Sm9.Proofs.SpecRate
 /-!
 # C02 — Pairing values equal the SM9 R-ate pairing, byte for byte
 
@@ -130,6 +131,33 @@ theorem entry_points_agree (P : G1) (Q : G2) (hPv : G1.Valid P) (hQv : G2.Valid 
     Api.pairing P Q = Api.fast_pairing P Q ∧
     (do let pr ← Api.prepare Q; Api.preparedPairing pr P) = Api.fast_pairing P Q :=
   ⟨api_pairing_eq_fast_pairing P Q hPv hQv k hk, api_prepared_eq_fast P Q⟩
+open Miller SpecField in
+/-- **the pairing value equals the one computed by the independent textbook implementation** (`Sm9.Spec.rate`, the executable
+    oracle of the correspondence run: affine chord-and-tangent on the twist, schoolbook `F_q[w]/(w¹²+2)`, the binary Miller loop
+    over `6t+2` with literal `q`-th powers for the Frobenius and the literal exponent `(q¹²−1)/r`, written without reference to
+    the crate or the model).  For every valid `P ≠ O`, `Q ≠ O` of `⟨P2⟩` in any representation all three entry points return a `g`
+    whose flattening is exactly what the oracle returns on the affine coordinates (Proofs/SpecField, SpecCurve, SpecRate.lean). -/
+theorem pairing_equals_independent_implementation (P : G1) (Q : G2) (hPz : P.z ≠ 0) (hPv : G1.Valid P) (hQz : Q.z ≠ 0)
+    (hQv : G2.Valid Q) (k : Nat) (hk : G2.toAff Q = k • G2.toAff (G.one : G2)) :
+    ∃ g : Fq12, Api.pairing P Q = .ok g ∧ Api.fast_pairing P Q = .ok g ∧
+      (do let pr ← Api.prepare Q; Api.preparedPairing pr P) = .ok g ∧
+      Spec.rate (some ((P.x / P.z ^ 2).val, (P.y / P.z ^ 3).val))
+        (some (toQ2 (Q.x / Q.z ^ 2), toQ2 (Q.y / Q.z ^ 3))) = some (toF12 g) := by
+  refine ⟨_, pairing_is_rate_pairing P Q hPz hPv hQz hQv k hk, fast_pairing_is_rate_pairing P Q hPz hPv hQz hQv k hk,
+    prepared_pairing_is_rate_pairing P Q hPz hPv hQz hQv k hk, ?_⟩
+  obtain ⟨he, hpt⟩ := twPt_of_valid Q hQz hQv
+  have hg : twPt genXY = G2.toAff (G.one : G2) := by rw [twPt_eq, affG2_gen]
+  have hk' : twPt (Q.x / Q.z ^ 2, Q.y / Q.z ^ 3) = k • twPt genXY := by
+    rw [hg]; exact hpt.trans hk
+  have hP := ((Jac.nonsingular_iff b1 _ _).1 (hPv.resolve_left hPz)).1
+  refine SpecRate.spec_rate_eq _ _ ?_ _ _ he k hk'
+  calc P.y / P.z ^ 3 * (P.y / P.z ^ 3) = (P.y / P.z ^ 3) ^ 2 := by ring
+    _ = (P.x / P.z ^ 2) ^ 3 + b1 := hP
+    _ = P.x / P.z ^ 2 * (P.x / P.z ^ 2) * (P.x / P.z ^ 2) + b1 := by ring
+/-- identities: the oracle returns one as well -/
+theorem identity_equals_independent_implementation (Pa : Spec.Pt Nat) (Qa : Spec.Pt Spec.Q2) :
+    Spec.rate none Qa = some (SpecField.toF12 1) ∧ Spec.rate Pa none = some (SpecField.toF12 1) :=
+  ⟨SpecRate.spec_rate_none_left Qa, SpecRate.spec_rate_none_right Pa⟩
 open Miller in
 /-- the textbook line value in the tower basis is `y_P − λ·x_P·w⁻¹ + (λ·x_T − y_T)·w⁻³` -/
 theorem line_value_formula (xT yT lam : Fq2) (xP yP : Fq) :
